@@ -46,7 +46,7 @@ theorem invW_step {fx : Fixes} {cfg : Cfg} {sym lw : Nat} {line : List Sec} (hsy
       rcases hfit with h1 | ⟨_, h2 | h3⟩
       · left; exact h1
       · right; left; exact h2
-      · right; right; exact h3
+      · right; right; exact h3.2
     · simp only; omega
   | nl style gs rest hs hlim heq hnl =>
     refine ⟨hrows, fun _ => Or.inr (Or.inl rfl), ?_, hfits'⟩
